@@ -654,11 +654,17 @@ pixman_image_composite32 (pixman_op_t      op,
     /* If the clip is within the source samples, and the samples are
      * opaque, then the source is effectively opaque.
      */
+/* The cover flags are computed by analyze_extent() with the rounding of the
+ * affine fetchers; the projective fetcher rounds its division differently,
+ * so they say nothing about the samples of a projective transform.
+ */
 #define NEAREST_OPAQUE	(FAST_PATH_SAMPLES_OPAQUE |			\
 			 FAST_PATH_NEAREST_FILTER |			\
+			 FAST_PATH_AFFINE_TRANSFORM |			\
 			 FAST_PATH_SAMPLES_COVER_CLIP_NEAREST)
 #define BILINEAR_OPAQUE	(FAST_PATH_SAMPLES_OPAQUE |			\
 			 FAST_PATH_BILINEAR_FILTER |			\
+			 FAST_PATH_AFFINE_TRANSFORM |			\
 			 FAST_PATH_SAMPLES_COVER_CLIP_BILINEAR)
 
     if ((info.src_flags & NEAREST_OPAQUE) == NEAREST_OPAQUE ||
